@@ -320,6 +320,14 @@ def frame_strip_shape(src, failures):
         failures.append('get_ram_data not found')
         return 'unrecognised'
     loops = [n for n in ast.walk(fn) if isinstance(n, ast.For) and 'select_dtypes' in _u(n.iter)]
+    if not loops:
+        # no quote stripping at all (fix of C10_F1): the referenced columns are handed on as they are, object columns stay object columns
+        frame_if = [n for n in ast.walk(fn) if isinstance(n, ast.If) and _u(n.test) == 'isinstance(source_value, pd.DataFrame)']
+        if len(frame_if) == 1 and [_u(st) for st in frame_if[0].body if not (isinstance(st, ast.Expr) and isinstance(st.value, ast.Constant))] \
+                == ['return source_value[references]']:
+            return 'keepsObject'
+        failures.append('get_ram_data: DataFrame branch without the object-column loop is not `return source_value[references]`')
+        return 'unrecognised'
     if len(loops) != 1 or _u(loops[0].iter) != "source_value.select_dtypes(include=['object']).columns" or len(loops[0].body) != 1:
         failures.append('get_ram_data: unrecognised loop over the object columns of a DataFrame source')
         return 'unrecognised'
